@@ -121,6 +121,19 @@ def check_doc(doc, lineno):
                             k += 1
                         if want and p.want:
                             k += len(common.srclines(p.want))
+    # a display is a function of the doctest and the options given: an earlier display with an explicit numbering choice must not
+    # decide what a later display WITHOUT that argument shows (it follows the configuration, which displaying does not change)
+    cfg = bool(ex.config['offset_linenos'])
+    base = ex.format_src(linenos=True, colored=False, want=True, prefix=True, offset_linenos=cfg)
+    for explicit in (not cfg, cfg, not cfg):
+        ex.format_src(linenos=True, colored=False, want=True, prefix=True, offset_linenos=explicit)
+        t = ex.format_src(linenos=True, colored=False, want=True, prefix=True)
+        if t != base:
+            problems.append('after a display with an explicit offset_linenos=%r, the display without that argument no longer follows the configuration (offset_linenos=%r)' % (explicit, cfg))
+            break
+        if bool(ex.config['offset_linenos']) != cfg:
+            problems.append('displaying the doctest changed its configuration: offset_linenos is %r, was %r' % (ex.config['offset_linenos'], cfg))
+            break
     # numbers are positions in the doctest text itself
     dl = parser.DoctestParser()
     # re-parse of the displayed text
